@@ -92,6 +92,17 @@ def crcLine (toks : List String) : String :=
       let i := BitVec.ofNat 16 i
       s!"{hex16 (Ufw.Model.Crc.ufw_crc16_arc_u16 false i (wordsOfImage img))} ## {hex16 (Ufw.Spec.Crc.crc i (img.take (img.length / 2 * 2)))}"
     | _, _ => "bad-op"
+  | ["crc.mid", init, n, k] =>
+    match parseHexNat init, n.toNat?, k.toNat? with
+    | some i, some n, some k =>
+      if n > 16 * 2 ^ 20 ∨ k > n then "bad-op" else
+      let i := BitVec.ofNat 16 i
+      let buf : List Octet := (List.range n).map fun j => BitVec.ofNat 8 ((j * 2654435761) >>> 7)
+      let whole := Ufw.Model.Crc.ufw_crc16_arc i buf
+      let split := Ufw.Model.Crc.ufw_crc16_arc (Ufw.Model.Crc.ufw_crc16_arc i (buf.take k)) (buf.drop k)
+      let sp := Ufw.Spec.Crc.crc i buf
+      s!"whole={hex16 whole} split={hex16 split} words={hex16 whole} ## whole={hex16 sp} split={hex16 sp} words={hex16 sp}"
+    | _, _, _ => "bad-op"
   | ["crc.huge16", _init, _n, _split] => "split=same ## split=same"
   | ["crc.huge", _init, _n, _split] =>
     -- Props.C16.crc_append for every length: the whole equals the continuation over the parts
